@@ -101,3 +101,59 @@ def lookalikes(rng):
         out += [rstr(rng, LETTERS + DIGITS, 1, 5) for _ in range(rng.randint(1, 6))]
     rng.shuffle(out)
     return out
+
+
+_WORDS = ['alpha', 'beta', 'Gamma', 'x9', 'rate', 'naïve', '日本', 'to', 'and', 'the', 'v1.2', 'id=7', 'OK', '42', 'a-b']
+
+
+def longtext(rng, nwords=None, newline=True):
+    """Free text with far more than 100 runs of character classes (rexpy's internal limit for describing a string run
+    by run), optionally holding line feeds."""
+    n = nwords or rng.choice([55, 60, 80, 120])
+    ws = [rng.choice(_WORDS) for _ in range(n)]
+    seps = [' '] * (n - 1)
+    if newline and n > 2:
+        for k in rng.sample(range(n - 1), rng.choice([1, 1, 2, 3])):
+            seps[k] = rng.choice(['\n', '\n', ' \n', '\r\n', '\n\n'])
+    return ''.join(w + sp for w, sp in zip(ws, seps + ['']))
+
+
+def longtexts(rng):
+    """A few distinct long texts (two or more are needed before an extractor summarises instead of quoting), some with
+    line feeds, next to ordinary short strings."""
+    out = [longtext(rng, newline=rng.random() < 0.7) for _ in range(rng.choice([2, 2, 3]))]
+    if not any('\n' in x for x in out):
+        out[0] = longtext(rng, newline=True)
+    out += [rstr(rng, LETTERS + DIGITS, 1, 5) for _ in range(rng.randint(0, 4))]
+    out += [rng.choice(out) for _ in range(rng.randint(0, 2))]
+    rng.shuffle(out)
+    return out
+
+
+# Expression lists whose later members use back-references / group conditionals, with values that the list as a whole
+# matches (each decided by one particular member) and values it does not.  Each expression is a pattern of its own: group
+# numbers do not carry over from one member to the next.
+BACKREF_FAMILIES = [
+    {'rex': ['^(id) \\d+$', '^([A-Za-z]{2})-\\1$'], 'match': ['id 7', 'id 42', 'GB-GB', 'fr-fr'], 'nomatch': ['GB-FR', 'id x']},
+    {'rex': ['^(#)\\d$', '^(<)?\\w+(?(1)>)$'], 'match': ['#5', '<abc>', 'abc', 'x'], 'nomatch': ['<abc', '#55 ']},
+    {'rex': ['^(a)b$', '^(.)\\1$'], 'match': ['ab', 'zz', 'aa', '77'], 'nomatch': ['ba', 'abc']},
+    {'rex': ['^(x)?q$', '^(.)(.)\\2\\1$'], 'match': ['q', 'xq', 'abba', 'xyyx'], 'nomatch': ['abab', 'qq ']},
+    {'rex': ['^(?P<c>.)(?P=c)$', '^(id) \\d$'], 'match': ['aa', 'id 7', '--'], 'nomatch': ['ab', 'id 77']},
+    {'rex': ['^#\\d$', '^(.)(.)\\1\\2$', '^(.)\\1$'], 'match': ['#5', 'abab', 'zz'], 'nomatch': ['abba', '#']},
+]
+BACKREF_REXES = [f['rex'] for f in BACKREF_FAMILIES]
+BACKREF_VALUES = sorted(set(v for f in BACKREF_FAMILIES for v in f['match'] + f['nomatch']))
+
+
+def backref_values(rng, n):
+    f = rng.choice(BACKREF_FAMILIES)
+    pool = list(f['match']) if rng.random() < 0.75 else f['match'] + f['nomatch'][:1]
+    return [rng.choice(pool) for _ in range(n)]
+
+
+def backref_family_for(values):
+    vs = set(v for v in values if v is not None)
+    for f in BACKREF_FAMILIES:
+        if vs and vs <= set(f['match'] + f['nomatch']):
+            return f
+    return None
